@@ -168,6 +168,7 @@ def _find_dijkstra(fn):
     # distance[start] = 0. ; queue.push(start, 0.)
     start = _params(fn)[1]
     zero_assign = zero_push = False
+    init_float = False
     for st in fn.body:
         if isinstance(st, ast.Assign) and len(st.targets) == 1:
             ss = _sub(st.targets[0])
@@ -175,6 +176,8 @@ def _find_dijkstra(fn):
                 if _const_int(st.value, "initial distance") != 0:
                     T.fail(REL, st, "initial distance of the start vertex is not 0")
                 zero_assign = True
+                # `0.` (float) or `0` (int): the type of the accumulator every distance is summed in
+                init_float = isinstance(st.value, ast.Constant) and isinstance(st.value.value, float)
         if isinstance(st, ast.Expr) and isinstance(st.value, ast.Call) and T.dotted(st.value.func) == qname + ".push":
             a = st.value.args
             if not (len(a) == 2 and _is_name(a[0], start) and _const_int(a[1], "initial key") == 0):
@@ -182,7 +185,7 @@ def _find_dijkstra(fn):
             zero_push = True
     if not (zero_assign and zero_push):
         T.fail(REL, fn, "initialisation `distance[start] = 0; queue.push(start, 0)` not found in " + fn.name)
-    return {"v": v, "nv": nv, "wexpr": wexpr, "relax": relax, "loop": w}
+    return {"v": v, "nv": nv, "wexpr": wexpr, "relax": relax, "loop": w, "init_float": init_float}
 
 
 def _resolve(node, env, start, targets):
@@ -298,6 +301,8 @@ def gen_paths():
     g.append("Definition sp_custom (wt : Z -> Z -> Z) (v nv : Z) : Z := %s." % lam_app(p3, (jA, jB), "wt"))
     g.append("(* ---- relaxation test of shortest_path: update iff this holds (old = distance[nv], finite) *)")
     g.append("Definition relax_sp (old d : Z) : bool := %s." % dj["relax"])
+    g.append("(* `distance[start] = 0.`: is the literal a float? (then every distance is a float sum, whatever the type of the weights) *)")
+    g.append("Definition sp_init_dist_float : bool := %s." % ("true" if dj["init_float"] else "false"))
 
     # ------------------------------------------------------------------ shortest_path_to_vertex_set
     vs = T.find_def(tree, "shortest_path_to_vertex_set", REL)
@@ -520,6 +525,7 @@ def gen_paths():
     g.append("Definition set_one : Z := %s." % _z(set_one))
     g.append("Definition sink_weight : Z := %s." % _z(sink_w))
     g.append("Definition relax_set (old d : Z) : bool := %s." % dj2["relax"])
+    g.append("Definition set_init_dist_float : bool := %s." % ("true" if dj2["init_float"] else "false"))
     g.append("Definition set_ind (start : Z) (path : list Z) : Z := match path with [] => start | _ => %s end." % ind)
 
     # ------------------------------------------------------------------ shortest_path_to_border
